@@ -10,6 +10,12 @@ spec/Wire.tla   the wire grammar (layouts of Fixed / CompactSize / Bytes / Vec f
      under an address-space limit (panics, aborts, hangs and allocation out of proportion are observed)
   3. seeded byte-level mutations (every truncation, single-byte changes, both) of valid encodings, judged
      by the harness' reference decoder, which is itself checked against every definite verdict of (2)
+     Every accepted exported transaction also goes through a mutate-after-decode stage: the decoded Tx is edited
+     through its public fields (scriptSig +23/+1/-1/emptied, input/output appended/removed, pk_script +1, witness
+     item added/removed, witness dropped/added, SegWit nil and back, lock time, sequence; a second edit on top),
+     with cold and warm caches, and SetHash(tx.SerializeNew()) / SetHash(nil) / Serialize / SerializeNew / WTxID /
+     Weight / VSize are called in three orders; txid, wtxid, sizes, weight, vsize and both serialisations must be
+     those of the EDITED structure (harness serialiser + sha256) and equal those of the same bytes decoded afresh.
   4. binding self-tests: a corrupted prediction / layout must be rejected; every rule and perturbation
      kind must occur among the exported cases (no vacuous run)
 """
@@ -226,6 +232,10 @@ def run(ctx):
         "a call that makes no progress for 10 s counts as a hang",
         "an empty block and a block followed by extra bytes may be refused or accepted (if accepted, with the predicted result); "
         "the coinbase wtxid may be reported as zero",
+        "mutate-after-decode contract (as wallet/signtx.go and client/rpcapi/mining.go use lib/btc): after editing a Tx the caller "
+        "calls SetHash(tx.SerializeNew()); SetHash(nil) re-hashes tx.Raw (the bytes last given to it) and is only judged when Raw is current; "
+        "a Tx with SegWit != nil but no witness item is not produced by the edits (known finding 'superfluous'); the sighash caches "
+        "(TxVerVars) are C02's subject",
         "helper-level canonicity (VLen accepting a non-minimal form in isolation) is not judged, only its effect through NewTx / NewBlock"]
 
 
